@@ -95,11 +95,8 @@ func vsimRun(r *sim.Run) {
 		var err error
 		if t.Chance(300) {
 			// fragments written byte by byte (values from trex / tfhd defaults, first_sample_flags, two truns)
-			if p, err = work.RawProduce(r, 1, 4, 3, 8); err != nil {
+			if p, err = work.RawProduceOpt(r, 1, 4, 3, 8, true, true); err != nil {
 				panic(sim.HarnessAbort{Msg: "raw fragment producer: " + err.Error()})
-			}
-			for _, s := range p.Segs {
-				s.Bytes = append(work.RawStyp(), s.Bytes...)
 			}
 			stream, name = p.Stream(), "raw-fragment-stream"
 			r.Probe("raw-fragment-production")
